@@ -21,6 +21,10 @@ def produces_table(fb, fn, produce, getter, values):
         return n.get("k") == "call" and callee_name(n) == getter
     if not any(selector(x) for x in fn.nodes()):
         raise Broken("%s does not read %s" % (fn.name, getter))
+    # calls through function pointers (a dispatch table) hide which producer runs for which value
+    indirect = [x for x in fn.nodes() if x.get("k") == "call" and not (x.get("callee") or {}).get("name") and x.get("op") is None]
+    if indirect:
+        raise Broken("%s dispatches through %d indirect call(s): the per-value table cannot be read off its paths — re-derive C15-R2" % (fn.name, len(indirect)))
     t = {}
     other = max(values) + 1
     while other in values:
